@@ -116,6 +116,16 @@ def tPastWrite (t : TPc) : Bool :=
   | .exit => true
   | .dead => true
 
+/-- which pcs belong to the returning path / the panic path -/
+def tOkP (p : Bool) (t : TPc) : Bool :=
+  match t with
+  | .notStarted => !p
+  | .run => !p
+  | .write _ => !p
+  | .pRead => p
+  | .freeBox => !p
+  | _ => true
+
 def hFreedTsm (h : HPc) : Bool :=
   match h with
   | .fresh => false
@@ -125,19 +135,13 @@ def hFreedTsm (h : HPc) : Bool :=
   | .sp4 => false
   | .uTls => false
   | .uStack => false
-  | .uBox true => false
-  | .uBox false => false
-  | .uTsm true => false
-  | .uTsm false => false
-  | .failed true => true
-  | .failed false => true
+  | .uBox _ => false
+  | .uTsm _ => false
+  | .failed _ => true
   | .handle => false
-  | .wLoad true => false
-  | .wLoad false => false
-  | .wSys true => false
-  | .wSys false => false
-  | .wParked true => false
-  | .wParked false => false
+  | .wLoad _ => false
+  | .wSys _ => false
+  | .wParked _ => false
   | .jRead => false
   | .jFree => false
   | .joined => true
@@ -156,19 +160,13 @@ def hLostPath (h : HPc) : Bool :=
   | .sp4 => false
   | .uTls => false
   | .uStack => false
-  | .uBox true => false
-  | .uBox false => false
-  | .uTsm true => false
-  | .uTsm false => false
-  | .failed true => false
-  | .failed false => false
+  | .uBox _ => false
+  | .uTsm _ => false
+  | .failed _ => false
   | .handle => false
-  | .wLoad true => false
-  | .wLoad false => true
-  | .wSys true => false
-  | .wSys false => true
-  | .wParked true => false
-  | .wParked false => true
+  | .wLoad b => !b
+  | .wSys b => !b
+  | .wParked b => !b
   | .jRead => false
   | .jFree => false
   | .joined => false
@@ -187,19 +185,13 @@ def hAfterWait (h : HPc) : Bool :=
   | .sp4 => false
   | .uTls => false
   | .uStack => false
-  | .uBox true => false
-  | .uBox false => false
-  | .uTsm true => false
-  | .uTsm false => false
-  | .failed true => false
-  | .failed false => false
+  | .uBox _ => false
+  | .uTsm _ => false
+  | .failed _ => false
   | .handle => false
-  | .wLoad true => false
-  | .wLoad false => false
-  | .wSys true => false
-  | .wSys false => false
-  | .wParked true => false
-  | .wParked false => false
+  | .wLoad _ => false
+  | .wSys _ => false
+  | .wParked _ => false
   | .jRead => true
   | .jFree => true
   | .joined => true
@@ -217,19 +209,13 @@ def hReadDone (h : HPc) : Bool :=
   | .sp4 => false
   | .uTls => false
   | .uStack => false
-  | .uBox true => false
-  | .uBox false => false
-  | .uTsm true => false
-  | .uTsm false => false
-  | .failed true => false
-  | .failed false => false
+  | .uBox _ => false
+  | .uTsm _ => false
+  | .failed _ => false
   | .handle => false
-  | .wLoad true => false
-  | .wLoad false => false
-  | .wSys true => false
-  | .wSys false => false
-  | .wParked true => false
-  | .wParked false => false
+  | .wLoad _ => false
+  | .wSys _ => false
+  | .wParked _ => false
   | .jRead => false
   | .jFree => true
   | .joined => true
@@ -247,19 +233,13 @@ def tlsH (h : HPc) : RSt :=
   | .sp4 => .live
   | .uTls => .live
   | .uStack => .freed
-  | .uBox true => .freed
-  | .uBox false => .unalloc
-  | .uTsm true => .freed
-  | .uTsm false => .unalloc
-  | .failed true => .freed
-  | .failed false => .unalloc
+  | .uBox b => if b then .freed else .unalloc
+  | .uTsm b => if b then .freed else .unalloc
+  | .failed b => if b then .freed else .unalloc
   | .handle => .unalloc
-  | .wLoad true => .unalloc
-  | .wLoad false => .unalloc
-  | .wSys true => .unalloc
-  | .wSys false => .unalloc
-  | .wParked true => .unalloc
-  | .wParked false => .unalloc
+  | .wLoad _ => .unalloc
+  | .wSys _ => .unalloc
+  | .wParked _ => .unalloc
   | .jRead => .unalloc
   | .jFree => .unalloc
   | .joined => .unalloc
@@ -277,19 +257,13 @@ def stackH (h : HPc) : RSt :=
   | .sp4 => .live
   | .uTls => .live
   | .uStack => .live
-  | .uBox true => .freed
-  | .uBox false => .unalloc
-  | .uTsm true => .freed
-  | .uTsm false => .unalloc
-  | .failed true => .freed
-  | .failed false => .unalloc
+  | .uBox b => if b then .freed else .unalloc
+  | .uTsm b => if b then .freed else .unalloc
+  | .failed b => if b then .freed else .unalloc
   | .handle => .unalloc
-  | .wLoad true => .unalloc
-  | .wLoad false => .unalloc
-  | .wSys true => .unalloc
-  | .wSys false => .unalloc
-  | .wParked true => .unalloc
-  | .wParked false => .unalloc
+  | .wLoad _ => .unalloc
+  | .wSys _ => .unalloc
+  | .wParked _ => .unalloc
   | .jRead => .unalloc
   | .jFree => .unalloc
   | .joined => .unalloc
@@ -307,19 +281,13 @@ def boxH (h : HPc) : RSt :=
   | .sp4 => .live
   | .uTls => .live
   | .uStack => .live
-  | .uBox true => .live
-  | .uBox false => .live
-  | .uTsm true => .freed
-  | .uTsm false => .freed
-  | .failed true => .freed
-  | .failed false => .freed
+  | .uBox _ => .live
+  | .uTsm _ => .freed
+  | .failed _ => .freed
   | .handle => .live
-  | .wLoad true => .live
-  | .wLoad false => .live
-  | .wSys true => .live
-  | .wSys false => .live
-  | .wParked true => .live
-  | .wParked false => .live
+  | .wLoad _ => .live
+  | .wSys _ => .live
+  | .wParked _ => .live
   | .jRead => .live
   | .jFree => .live
   | .joined => .live
@@ -358,6 +326,8 @@ structure IInv (x : Inst) : Prop where
   flagT : x.flag = true → x.winner = some .H ∨ x.winner = some .T
   flagF : x.flag = false → x.winner = none
   lost : tLost x.t = true → x.winner = some .H
+  pastW : tPastFlag x.panicked x.t = true → x.flag = true
+  pOK : tOkP x.panicked x.t = true
   dpath : hLostPath x.h = true → x.winner = some .T
   aw : hAfterWait x.h = true → x.kdone = true ∧ x.hsees = true
   kd : x.kdone = true → x.t = .dead
@@ -372,7 +342,7 @@ structure IInv (x : Inst) : Prop where
 
 theorem init_inv : IInv Inst.init := by
   constructor <;> simp [Inst.init, spawnedOk, tlsOf, stackOf, boxOf, tsmOf, tlsH, stackH, boxH, cnt, hFreedTsm,
-    tPastFlag, tLost, hLostPath, hAfterWait, tRan, b2n, tPastWrite, hReadDone]
+    tPastFlag, tLost, hLostPath, hAfterWait, tRan, b2n, tPastWrite, hReadDone, tOkP]
 
 
 /-! relations between the H-side predicates (so that T's and K's steps never need a case split on H's pc) -/
@@ -387,7 +357,7 @@ theorem hRead_after (h : HPc) (hf : hReadDone h = true) : hAfterWait h = true :=
 
 attribute [grind] touchTsm touchTls touchStack touchBox freeTsm freeTls freeStack freeBox notLive
      tlsOf stackOf boxOf tsmOf cnt spawnedOk tlsH stackH boxH hFreedTsm hLostPath hAfterWait hReadDone
-     tPastFlag tFreedTls tFreedStack tFreedBox tLost tRan tPastWrite b2n afterWait afterFlag expectOf
+     tPastFlag tFreedTls tFreedStack tFreedBox tLost tRan tPastWrite b2n afterWait afterFlag expectOf tOkP
 attribute [grind →] hFreed_cases hLost_spawned hAfter_spawned hRead_after
 
 set_option hygiene false in
@@ -395,7 +365,7 @@ set_option hygiene false in
 macro "inv_event" : tactic => `(tactic| (
   obtain ⟨c1, c2, c3, c4, c5, c6, c7, c8, c9⟩ := hc
   simp only [stepI] at h
-  obtain ⟨started, tlsEq, stackEq, boxEq, tsmEq, tlsC, stackC, boxC, tsmC, nbad, nrace, wH, wT, flagT, flagF, lost, dpath, aw, kd,
+  obtain ⟨started, tlsEq, stackEq, boxEq, tsmEq, tlsC, stackC, boxC, tsmC, nbad, nrace, wH, wT, flagT, flagF, lost, pastW, pOK, dpath, aw, kd,
     wordI, ctidI, runsI, ret0, ret1, ret2, slot0, joinI⟩ := hinv
   repeat' split at h
   all_goals first | (simp at h; done) | skip
